@@ -27,6 +27,9 @@ import (
 //   h1,h2  httpx.Parse on generated requests; every field has its own source
 //   docs   degenerate documents (totality only)
 //   hi     history independence (hist.go): part 0 = forward, part 1 = reverse enumeration order
+//   k1,k2  key names (keys.go): dotted / multi-segment / dashed keys, both placements of a value
+//   hk     cross-user histories (keys.go): entry "<U1>><U2>" = U1's universe, then U2's, in one process;
+//          entry "<U>" = the baseline (part 0 forward, part 1 reverse order)
 
 type shardSpec struct {
 	group, entry string
@@ -70,6 +73,20 @@ func shardList(thorough bool) []string {
 	}
 	add("hi", EHTTP, 2)
 	add("hi", EMIX, 2*nMixParts)
+	// key names (keys.go)
+	pk := 2
+	if thorough {
+		pk = 6
+	}
+	for _, e := range directEntries {
+		add("k1", e, 1)
+		add("k2", e, pk)
+	}
+	add("k1", EHTTP, 1)
+	add("k2", EHTTP, pk)
+	add("k1", EYAML, 1)
+	add("k1", ETOML, 1)
+	out = append(out, hkShards()...)
 	if thorough {
 		// parts-major: the completed prefix of a time-boxed run is "the first k blocks of primary
 		// specs (simplest kinds first) on every entry point"
@@ -174,6 +191,9 @@ func (x *runner) report(c *Case, fd *finding) {
 	if fd.Field >= 0 {
 		f := c.Fields[fd.Field]
 		coarse += fmt.Sprintf("|%d|%d|%v|%d|%v|%v|%v", f.Kind, f.Opt, f.Def != "", f.Rng, f.Opts, f.Str, f.InnerOpt)
+		if f.Key != "" || f.EmbOpt {
+			coarse += fmt.Sprintf("|%s|%v", f.Key, f.EmbOpt)
+		}
 	} else {
 		coarse += "|" + describeType(c.Fields)
 	}
@@ -246,9 +266,9 @@ func famsFor(entry string, fs []Field, primary int, thorough, httpReq bool) [][]
 	for i, f := range fs {
 		dc := delivery(entry, f)
 		if i == primary {
-			fams[i] = family(f, dc, thorough, httpReq)
+			fams[i] = withPlacements(f, dc, httpReq, family(f, dc, thorough, httpReq))
 		} else {
-			fams[i] = reducedFamily(f, dc, httpReq)
+			fams[i] = withPlacements(f, dc, httpReq, reducedFamily(f, dc, httpReq))
 		}
 	}
 	return fams
@@ -300,6 +320,10 @@ func (x *runner) runShard(s shardSpec) {
 		}
 	case "hi":
 		x.runHist(s, -1)
+	case "k1", "k2":
+		x.runKeys(s)
+	case "hk":
+		x.runHK(s, -1)
 	case "h1":
 		for _, src := range sources {
 			for _, f := range primarySpecs(0, 1, th) {
@@ -414,7 +438,11 @@ const rule = "one evaluation = one (entry point, generated struct type, input ve
 	"executed 4 times per enumeration order (target 1, which is then mutated in place through every slice / map / pointer; a " +
 	"second target; a target of a sibling type; once more after all other types) and all four must agree with each other and " +
 	"with the evaluator; an (order, entry, type) counts as non-trivial when an accepted target held a slice / map / pointer " +
-	"that was actually written through."
+	"that was actually written through. Key-name groups (k1, k2): the ordinary rule over types whose keys are dotted / " +
+	"three-segment / dashed texts (and the embedded struct), every supplied value in both placements (along the path and as one " +
+	"flat member). Cross-user groups (hk): one process per ordered pair of entry points (U1, U2) runs U1's universe and then " +
+	"U2's; every outcome of U2 must equal the outcome in a process that ran U2 alone, and the forward / reverse baselines must " +
+	"agree; counted like the ordinary groups (second phase only)."
 
 func main() {
 	cfg := vlib.ParseFlags("C08", "exploration")
@@ -463,6 +491,7 @@ func main() {
 		pprof.StopCPUProfile()
 	})
 	compareOrders(r, cfg, shardList(cfg.Thorough()))
+	compareUsers(r, cfg, shardList(cfg.Thorough()))
 	sortViolations(r)
 	sort.SliceStable(r.Samples, func(i, j int) bool { return fmt.Sprint(r.Samples[i]) < fmt.Sprint(r.Samples[j]) })
 	summariseCuts(r)
